@@ -291,10 +291,17 @@ class Transect:
         # Find all the cell polygons that intersect the line
         intersecting_indexes = self.convention.strtree.query(self.line, predicate='intersects')
 
-        for linear_index in intersecting_indexes:
+        # A stretch of the line that runs along the edge shared by two cells
+        # intersects both of them, but must only be counted once.
+        # Each cell takes its part away from what is left of the line,
+        # the cell with the lowest index gets a shared edge.
+        remaining = self.line
+        for linear_index in sorted(intersecting_indexes):
             polygon = self.convention.polygons[linear_index]
             index = self.convention.wind_index(linear_index)
-            for intersection in self._intersect_polygon(polygon):
+            intersections = self._intersect_polygon(polygon, remaining)
+            remaining = remaining.difference(polygon)
+            for intersection in intersections:
                 # The line will have two ends.
                 # The intersection starts and ends at these points.
                 # Project those points alone the original line to find
@@ -324,6 +331,7 @@ class Transect:
     def _intersect_polygon(
         self,
         polygon: shapely.Polygon,
+        line: shapely.geometry.base.BaseGeometry | None = None,
     ) -> list[shapely.LineString]:
         """
         Intersect a cell of the dataset geometry with the transect line,
@@ -345,18 +353,25 @@ class Transect:
         ----------
         polygon : shapely.Polygon
             The cell geometry to intersect
+        line : shapely geometry, optional
+            The part of the transect line to intersect the cell with.
+            Defaults to the whole transect line.
 
         Returns
         -------
         list of shapely.LineString
             All intersecting line strings
         """
-        intersection = polygon.intersection(self.line)
+        if line is None:
+            line = self.line
+        intersection = polygon.intersection(line)
         if isinstance(intersection, (shapely.GeometryCollection, shapely.MultiLineString)):
             geoms = intersection.geoms
         else:
             geoms = [intersection]
-        return [geom for geom in geoms if isinstance(geom, shapely.LineString)]
+        return [
+            geom for geom in geoms
+            if isinstance(geom, shapely.LineString) and not geom.is_empty]
 
     def distance_along_line(self, point: shapely.Point) -> float:
         """
